@@ -10,4 +10,9 @@ MCSpec == MCInit /\ [][CNext]_vars
 \* parametric table: one printed row per (family, range, lattice raw)
 MPInit == PInit /\ PrintT(ToJson([prow |-> PRow]))
 MPSpec == MPInit /\ [][PNext]_vars
+\* history: one printed record per step of every schedule
+MHStep == HStep /\ PrintT(ToJson([hstep |-> [s |-> Scheds[hs].id, pos |-> hp', step |-> HSteps[hp'], before |-> hp,
+             otherWidthBefore |-> \E j \in 1..hp : BoundsOf(HSteps[j]) = BoundsOf(HSteps[hp']) /\ WidthOf(HSteps[j]) # WidthOf(HSteps[hp']),
+             sameFamilyBefore |-> \E j \in 1..hp : HSteps[j].k = "param" /\ HSteps[hp'].k = "param" /\ HSteps[j].a = HSteps[hp'].a]]))
+MHSpec == HInit /\ [][MHStep]_vars
 ====
